@@ -37,7 +37,7 @@ func genOnce(t *rapid.T) OnceCase {
 		case "resolve":
 			op.Pre = rapid.IntRange(0, 7).Draw(t, "pre") == 0
 		case "finish":
-			op.Out = rapid.SampledFrom([]string{"value", "value0", "err", "err", "ctxerr", "wrapctxerr", "valerr"}).Draw(t, "out")
+			op.Out = rapid.SampledFrom([]string{"value", "value0", "err", "err", "ctxerr", "wrapctxerr", "valerr", "panic"}).Draw(t, "out")
 			op.Pick = rapid.IntRange(0, 3).Draw(t, "pick")
 		case "cancel":
 			op.Pick = rapid.IntRange(0, 5).Draw(t, "pick")
@@ -59,6 +59,7 @@ type invocation struct {
 	err      error
 	// cancelDerived: the error was produced because the invocation's (initiator's) context was cancelled
 	cancelDerived bool
+	panicked      bool // memo: the function panicked (its caller recovers)
 }
 
 type caller struct {
@@ -176,6 +177,15 @@ func body16(c *sched.Ctl, cs OnceCase, v *ev.Verdict) {
 	memoFn := memo.MemoizeFunc(func() (int, error) {
 		inv := enter(nil)
 		out := <-inv.release
+		if out == "panic" {
+			// the one call ends abnormally; what the others receive is not specified, but the call is
+			// over: nobody may keep waiting for it and the function is not called again
+			hm.Lock()
+			inv.panicked = true
+			hm.Unlock()
+			leave(inv, out)
+			panic("memoized function panics")
+		}
 		return leave(inv, out)
 	})
 	failureSeen, cancelWhileInFlight, laterCaller := false, false, false
@@ -236,13 +246,19 @@ func body16(c *sched.Ctl, cs OnceCase, v *ev.Verdict) {
 				var val int
 				var err error
 				if cs.Memo {
-					val, err = memoFn()
+					func() {
+						defer func() { _ = recover() }()
+						val, err = memoFn()
+					}()
 				} else {
 					val, err = once.Resolve(ctx)
 				}
 				hm.Lock()
 				defer hm.Unlock()
 				cl.returned, cl.val, cl.err = true, val, err
+				if cs.Memo && len(invs) > 0 && invs[0].panicked {
+					return // (results after an abnormal end are not specified)
+				}
 				if cl.pre && err != context.Canceled {
 					fail("once:cancelled-caller-got-result", "caller #%d called Resolve with an already cancelled context and got (%d,%v) instead of context.Canceled", cl.id, val, err)
 				}
@@ -406,7 +422,7 @@ func body16(c *sched.Ctl, cs OnceCase, v *ev.Verdict) {
 func TestC16(t *testing.T) {
 	ev.Drive(t, ev.Runner[OnceCase]{
 		Prop: "C16",
-		Rule: "promise.Once (3/4) or memo.MemoizeFunc (1/4); ops Resolve(own context) / Finish(pick running invocation, value|error|initiator's ctx error) / Cancel(pick caller); the wrapped function blocks until Finish; callers are parked before the Once mutex so that arrival order relative to completion is generated; non-trivial iff >= 2 callers and (a failure, a caller cancelled while an invocation was in flight, or a caller arriving after completion); distinct by hash(ops, realised grant trace)",
+		Rule: "promise.Once (3/4) or memo.MemoizeFunc (1/4); ops Resolve(own context) / Finish(pick running invocation, value|zero value|error|value with error|initiator's ctx error; MemoizeFunc: panic, recovered by its caller) / Cancel(pick caller); the wrapped function blocks until Finish; callers are parked before the Once mutex so that arrival order relative to completion is generated; non-trivial iff >= 2 callers and (a failure, a caller cancelled while an invocation was in flight, or a caller arriving after completion); distinct by hash(ops, realised grant trace)",
 		Gen:  genOnce,
 		Run:  run16,
 	})
